@@ -471,6 +471,7 @@ fn main() {
             loop_ctr: 0,
             cur_loop: 0,
             used_loops: Default::default(),
+            all_loop_headers: elab::collect_loop_headers(&ff.block),
             brk_ctr: 0,
             used_keys: BTreeSet::new(),
             notes: vec![],
